@@ -47,6 +47,14 @@ muts = [
  ("w5 rebalance borrows from a minimal left sibling", B, [("\tif leftSibling != nil && len(leftSibling.Entries) > tree.minEntries() {", "\tif leftSibling != nil && len(leftSibling.Entries) >= tree.minEntries() {")]),
  ("w6 delete keeps an empty root", B, [("\t\tif len(tree.Root.Entries) == 0 {\n\t\t\ttree.Root = nil\n\t\t}\n", "")]),
  ("w7 splitNonRoot forgets left.Parent (uses nil)", B, [("node.Entries[:middle]...), Parent: parent}", "node.Entries[:middle]...)}")]),
+ ("w8 merge with the right sibling keeps the separator in the parent", B, [("\t\tdeletedKey = node.Parent.Entries[rightSiblingIndex-1].Key\n\t\ttree.deleteEntry(node.Parent, rightSiblingIndex-1)\n", "\t\tdeletedKey = node.Parent.Entries[rightSiblingIndex-1].Key\n")]),
+ ("w9 delete at an internal node takes the SMALLEST entry of the left subtree", B, [("\tleftLargestNode := tree.right(node.Children[index])", "\tleftLargestNode := tree.left(node.Children[index])")]),
+ ("w10 Remove does not decrement size", B, [("\t\ttree.delete(node, index)\n\t\ttree.size--\n", "\t\ttree.delete(node, index)\n")]),
+ ("w11 prependChildren leaves the old Parent links", B, [("\ttoNode.Children = append(children, toNode.Children...)\n\tsetParent(fromNode.Children, toNode)\n", "\ttoNode.Children = append(children, toNode.Children...)\n")]),
+ ("w12 borrow from the right: the moved child keeps its Parent", B, [("\t\t\trightSiblingLeftMostChild := rightSibling.Children[0]\n\t\t\trightSiblingLeftMostChild.Parent = node\n", "\t\t\trightSiblingLeftMostChild := rightSibling.Children[0]\n")]),
+ ("w13 root collapse forgets node.Parent = nil", B, [("\t\ttree.Root = node\n\t\tnode.Parent = nil\n\t\treturn\n", "\t\ttree.Root = node\n\t\treturn\n")]),
+ ("i8 NextTo stops at the first element that does NOT satisfy f", BI, [("\tfor iterator.Next() {\n\t\tkey, value := iterator.Key(), iterator.Value()\n\t\tif f(key, value) {", "\tfor iterator.Next() {\n\t\tkey, value := iterator.Key(), iterator.Value()\n\t\tif !f(key, value) {")]),
+ ("i9 PrevTo walks forwards", BI, [("\tfor iterator.Prev() {\n\t\tkey, value := iterator.Key(), iterator.Value()", "\tfor iterator.Next() {\n\t\tkey, value := iterator.Key(), iterator.Value()")]),
  ("h1 harmless: search with renamed locals", B, [(SEARCH, SEARCH.replace("low", "lo").replace("high", "hi").replace("compare", "c"))]),
  ("h2 harmless: Height with height += 1, isLeaf compared the other way round", B, [("\t\theight++\n", "\t\theight += 1\n"), ("\treturn len(node.Children) == 0\n}", "\treturn 0 == len(node.Children)\n}")]),
  ("h3 harmless but ANOTHER LOOP SHAPE: left with a loop condition", B, [(LEFT, "\tcurrent := node\n\tfor !tree.isLeaf(current) {\n\t\tcurrent = current.Children[0]\n\t}\n\treturn current\n")]),
